@@ -92,6 +92,9 @@ type gcPublisher struct {
 	msgs    []*message.Message
 	batches []int // sizes of the consecutive Publish calls (variadic batches)
 	reuse   bool  // single-message Publish calls all use one message object, refilled after each call returned
+	// ctxEnds >= 0: the published messages carry a context of the publisher's that ends that many scheduling steps after
+	// Publish was invoked (a request context, say): what Publish promises does not depend on it
+	ctxEnds int
 }
 
 type gcWorld struct {
@@ -168,6 +171,10 @@ func gcGenerate(r *Run, o gcOpts) *gcWorld {
 			left -= b
 		}
 		pb.reuse = t.Chance(1, 3)
+		pb.ctxEnds = -1
+		if t.Chance(1, 4) {
+			pb.ctxEnds = t.Int(12)
+		}
 		w.pubs = append(w.pubs, pb)
 	}
 	nSubs := t.Skewed(5)
@@ -277,6 +284,20 @@ func (w *gcWorld) publishAll(pb *gcPublisher) {
 			rec.invEv = inv
 		}
 		w.r.Logf("pub %d Publish(%v) invoked", pb.id, ids)
+		if pb.ctxEnds >= 0 {
+			cctx, ccancel := context.WithCancel(context.Background())
+			for _, m := range batch {
+				m.SetContext(cctx)
+			}
+			n := pb.ctxEnds
+			go func() {
+				for k := 0; k < n; k++ {
+					simrt.Yield()
+				}
+				w.r.Fault("published-message-context-ends")
+				ccancel()
+			}()
+		}
 		var err error
 		pv, pan := Call(func() { err = w.ps.Publish(pb.topic, batch...) })
 		ret := w.tick()
